@@ -33,12 +33,43 @@ the code under test (which uses shapely resp. pp.intersections.polygons_3d).
 Enumeration
   lines_by_polygon        7 catalogue polygons (triangle, square, hexagon, L, chevron, U, star) x ALL segments between integer points
                           of [-1,5]^2 (1176 undirected; directed both ways for every 5th), one vectorised call per polygon with tags
-                          and a single-segment call for every 3rd segment; thorough: polygons also reversed (cw).
+                          and a single-segment call for every 4th segment; thorough: polygons also reversed (cw).
   polygons_by_polyhedron  cube: axis-parallel rectangles in the planes {x,y,z} = 1, 2 (thorough: also 3) with corner coordinates from
                           {-1,0,2,4,5} (thorough {-1,0,1,3,4,5}); tetrahedron: the same rectangles in the planes = 1; seeded integer
                           triangles of [-1,5]^3 for both solids; polygons given one per call and (every 7th) in a batch of three.
 
-Unchanged tree / detection power: see the end of the docstring.
+Unchanged tree.  lines_by_polygon: holds for every segment against the convex polygons and for all segments against the non-convex
+ones except (a).  polygons_by_polyhedron: holds for EVERY enumerated polygon in generic position (no polygon vertex in a face
+plane, polygon boundary not through a polyhedron edge), cube and tetrahedron, quick and thorough; it fails in the degenerate
+placements (b)-(e).  All kept strict and reported to the lead:
+  (a) "lines_by_polygon: pieces are exactly the part inside the polygon" / "non-convex, partly inside + isolated boundary contact":
+      when a segment has a piece inside the polygon AND touches the boundary at a separate isolated point, shapely returns a
+      GeometryCollection (Point + LineString); only LineString / MultiLineString are handled, so the inside piece is dropped:
+      L-polygon (0,0),(4,0),(4,2),(2,2),(2,4),(0,4), segment (3,2)->(-1,4): nothing returned, exact inside part t in [1/4,3/4].
+  (b) "polygons_by_polyhedron: pieces lie inside polyhedron and polygon" / "cube, cut; a vertex in a face plane": cube [0,4]^3,
+      triangle (4,3,0),(5,0,4),(3,1,2) (first vertex on a cube edge): the returned piece (4,.5,3),(4,3,0),(5,0,4) is the part
+      OUTSIDE the cube; exact intersection (4,3,0),(4,1/2,3),(3,1,2).
+  (c) "polygons_by_polyhedron: does not raise" / "..., cut; an edge in a face plane: AssertionError": rectangle x=2, 0<=y<=4, -1<=z<=1
+      (two edges in the planes y=0, y=4): `assert np.sum(count == 1) == 2`  (the source has a FIXME for this placement).
+  (d) thorough: "... does not raise" / "cube, inside, vertices on the boundary; a vertex in a face plane: AssertionError":
+      triangle (2,2,2),(0,3,3),(1,2,2) with one vertex on the face x=0: `assert False` ("inside_polyhedron test is bad").
+  (e) thorough: "... piece area equals the exact clipped area" / "..., cut; boundary through a polyhedron edge" (and "a vertex in a
+      face plane", "an edge in a face plane"): e.g. triangle (-1,1,5),(1,3,3),(5,2,-1) whose edge passes through the cube edge
+      x=0,z=4: the piece (0,2,4),(1,3,3),(4,2.25,0) misses vertices (area 2.65, exact 6.19); sometimes no piece at all.
+
+Detection power (scratch copy of /repo/src under /var/tmp, POREPY_SRC=<copy>, one bug at a time in constrain_geometry.py, quick
+tier; each gave exit 1 with VIOLATION lines whose (obligation, signature) do not occur on the unchanged tree):
+  M1  lines_by_polygon: `reshape((2, -1), order="F")` -> order="C" (end points paired wrongly)
+        -> "pieces lie on their input segment", "pieces lie inside the polygon", "pieces are exactly the part inside ..."
+  M2  lines_by_polygon: tag rows taken from `edges[2:, :n_kept]` instead of `edges[2:, edges_kept]`
+        -> "pieces carry their segment's tags"
+  M3  lines_by_polygon: MultiLineString branch disabled       -> "pieces are exactly the part inside the polygon" (several pieces)
+  M4  polygons_by_polyhedron: `start_pairs` 0 <-> 1 (inside / outside sub-segments swapped)
+        -> "pieces lie inside polyhedron and polygon", "piece area equals the exact clipped area" (generic position)
+  M5  polygons_by_polyhedron: bounding-box rejection `np.max(poly[0]) < xmin` -> `np.min(poly[0]) < xmin`
+        -> "piece area equals the exact clipped area" (cube/tetrahedron, cut; generic position)
+  M6  polygons_by_polyhedron: `orig_poly_ind.append(pi)` -> `append(0)`
+        -> both obligations with signature "..., three polygons in one call (each of them passes alone)"
 """
 from __future__ import annotations
 
@@ -119,8 +150,20 @@ def d2_point_polygon2(poly, q):
     return min(d2_point_seg(q, poly[i], poly[(i + 1) % k]) for i in range(k))
 
 
+_II_CACHE = {}
+
+
 def inside_intervals(poly, s, e):
-    """-> (list of (t0, t1) parameter intervals of [s,e] inside the closed polygon, runs_along_boundary)"""
+    """-> (list of (t0, t1) parameter intervals of [s,e] inside the closed polygon, runs_along_boundary); memoised"""
+    key = (tuple(poly), s, e)
+    if key not in _II_CACHE:
+        if len(_II_CACHE) > 200000:
+            _II_CACHE.clear()
+        _II_CACHE[key] = _inside_intervals(poly, s, e)
+    return _II_CACHE[key]
+
+
+def _inside_intervals(poly, s, e):
     d = sub(e, s)
     ts = {Fraction(0), Fraction(1)}
     k = len(poly)
@@ -301,7 +344,7 @@ def sweep_lines(rep, pp, quick):
     with rep.sweep(
         "lines_by_polygon",
         rule="7 catalogue polygons (thorough: also clockwise) x all segments between distinct integer points of [-1,5]^2 (every 5th also "
-             "reversed); per polygon one call with all admissible segments (two tag rows) and a single-segment call for every 3rd; segments "
+             "reversed); per polygon one call with all admissible segments (two tag rows) and a single-segment call for every 4th; segments "
              "overlapping a polygon edge along a positive length are excluded by the requires; non-trivial = the segment is cut (partly inside "
              "or several pieces) or only touches the polygon; distinct by (polygon, orientation, segment)",
         bound="7 polygons x 1176 undirected segments",
@@ -323,7 +366,7 @@ def sweep_lines(rep, pp, quick):
                     sw.case(key=(name, orient, s, e), nontrivial=(c not in ("outside", "completely inside")),
                             sample={"polygon": poly, "segment": [s, e], "class": c})
                 fails = check_lines(pp, poly, segs, "batch")
-                for k in range(0, len(segs), 3):
+                for k in range(0, len(segs), 4):
                     fails += check_lines(pp, poly, [segs[k]], "single")
                 for ob, sig, detail in fails:
                     rep.violation(ob, sig, inputs={"fn": "lines_by_polygon", "polygon": poly, "note": detail[:200]}, detail=f"{name} {orient}: {detail}")
@@ -464,7 +507,20 @@ def _poly_class(p, planes):
     k = len(p)
     edge_in_plane = any(vals[i][j] == 0 and vals[(i + 1) % k][j] == 0 for i in range(k) for j in range(len(planes)))
     vert_in_plane = any(v == 0 for vs in vals for v in vs)
-    deg = "; an edge in a face plane" if edge_in_plane else ("; a vertex in a face plane" if vert_in_plane else "; generic position")
+    through_edge = False  # the polygon's boundary crosses the polyhedron's surface at a point lying in two face planes (an edge or corner)
+    for i in range(k):
+        a, b = p[i], p[(i + 1) % k]
+        for j, (n, c) in enumerate(planes):
+            va, vb = vals[i][j], vals[(i + 1) % k][j]
+            if (va < 0 < vb) or (vb < 0 < va):
+                t = Fraction(va) / (va - vb)
+                x = tuple(u + t * (w - u) for u, w in zip(a, b))
+                vx = [dot(m, x) - cc for m, cc in planes]
+                if all(v <= 0 for v in vx) and sum(1 for v in vx if v == 0) >= 2:
+                    through_edge = True
+    # ... or an edge/corner of the polyhedron lies in the polygon's plane inside the polygon (the surface is crossed at a corner)
+    deg = "; an edge in a face plane" if edge_in_plane else ("; a vertex in a face plane" if vert_in_plane else
+                                                            ("; boundary through a polyhedron edge" if through_edge else "; generic position"))
     if not ex or area2(ex) == 0:
         return "outside" + (" (touching)" if on_b or ex else "") + deg
     if all(all(v < 0 for v in vs) for vs in vals):
@@ -493,7 +549,7 @@ def sweep_polyhedron(rep, pp, quick):
                         r.append(tuple(q))
                     rects.append(r)
     rng = rep.rng
-    ntri = 150 if quick else 2500
+    ntri = 100 if quick else 2500
     with rep.sweep(
         "polygons_by_polyhedron",
         rule="cube [0,4]^3: every axis-parallel rectangle in the planes {x,y,z} = 1,2 (thorough 1,2,3) with corner coordinates from "
@@ -522,7 +578,11 @@ def sweep_polyhedron(rep, pp, quick):
                 fails = check_polyhedron(pp, solid, [p], "single polygon")
                 if k % 7 == 0:
                     batch = [q for q in (p, polys[(k + 1) % len(polys)], polys[(k + 5) % len(polys)]) if not _coplanar_with_face(q, planes)]
-                    fails += [(ob, sig + " [batch]", d) for ob, sig, d in check_polyhedron(pp, solid, batch, "batch")]
+                    single = [check_polyhedron(pp, solid, [q], "single polygon") for q in batch[1:]]
+                    bf = check_polyhedron(pp, solid, batch, "batch")
+                    # a failure of the batch is reported only if it is not explained by a failure of one of its members alone
+                    if bf and not fails and not any(single):
+                        fails += [(ob, f"{solid}, three polygons in one call (each of them passes alone)", d) for ob, sig, d in bf]
                 for ob, sig, detail in fails:
                     rep.violation(ob, sig, inputs={"fn": "polygons_by_polyhedron", "solid": solid, "polygon": p}, detail=detail)
 
